@@ -67,6 +67,9 @@ func (s *Source) DrawBits(n int) uint64 {
 	}
 	return d.Val & mask(n)
 }
+// IsEnded tells the library's stream wrapper that the stream is exhausted (and stays so).
+func (s *Source) IsEnded() bool { return s.Ended }
+
 func (s *Source) BeginGroup(label string, standalone bool) {}
 func (s *Source) EndGroup(discard bool)                    {}
 
